@@ -22,6 +22,7 @@ BadOf(r) ==
         THEN {"C07_finished_at_wrong_cycle"} ELSE {})
   \cup (IF r.quiet /\ r.stop > 0 /\ (\E c \in VarSet(I) : ~r.fin[c]) THEN {"quiet_but_not_all_finished"} ELSE {})
   \cup (IF r.exc # "" THEN {"EXC"} ELSE {})
+  \cup (IF r.bestresp /\ ~HMovesBestResponse(I, r.hist) THEN {"C06_dsa_move_not_best_response"} ELSE {})
   \cup (IF \E c \in VarSet(I) : r.val[c] \notin 0..I.dsize[c] THEN {"C10_current_value_not_in_domain"} ELSE {})
 VARIABLE k
 Init == k \in 1..Len(H)
